@@ -11,6 +11,7 @@ up to the bound is executed on a fresh resolver and the complete path->class tab
 the untouched state.
 """
 import itertools
+import re
 
 from mc.core import pool
 from mc.gen import corpus, larksent
@@ -18,8 +19,10 @@ from mc.gen import corpus, larksent
 ID = 'C10'
 LEVEL = 'model_checking'
 
-INNER = ['a', 'b', 's']
-LEAF = [('a', 'tok'), ('b', 'tok'), ('a', 'tree'), ('s', 'tok'), (None, 'none')]
+# 'ab' has no node class of its own (fallback) and its name starts with the mapped tag 'a': paths of siblings can be
+# string prefixes of each other (r.a / r.ab)
+INNER = ['a', 'b', 'ab']
+LEAF = [('a', 'tok'), ('b', 'tok'), ('a', 'tree'), ('ab', 'tok'), (None, 'none')]
 
 
 # ------------------------------------------------------------------------------------------ part A
@@ -106,6 +109,29 @@ def ref_paths(tree):
     return out
 
 
+def ref_expand(ref, via):
+    """Reference for Nodes.expand(via): the nearest mapped entries below via (at most 3 levels down) and the leaves that
+    have no mapped entry on their way, in document order. Ancestry is decided on path *elements*, not on strings."""
+    ve = via.split('.')
+    out, recorded = [], []
+    for p, e, _ in ref:
+        pe = p.split('.')
+        if len(pe) <= len(ve) or pe[:len(ve)] != ve or len(pe) - len(ve) > 3:
+            continue
+        if any(pe[:len(c)] == c for c in recorded):
+            continue
+        tags = [re.sub(r'\[\d+\]', '', x) for x in pe[len(ve):]]
+        if tags[-1] in RESOLVABLE:
+            recorded.append(pe)
+            out.append(p)
+            continue
+        if isinstance(e, dict) and 'children' in e:
+            continue
+        if not any(t in RESOLVABLE for t in tags):
+            out.append(p)
+    return out
+
+
 def make_nodes(root_entry, mapping):
     from rogw.tranp.lang.di import DI
     from rogw.tranp.lang.locator import Invoker, Locator
@@ -181,6 +207,27 @@ def check_tree(tree, desc):
             add(['pluck', 'not-found', 'indexed' if p.endswith(']') else 'by-tag'], f'pluck({p}) raised NodeNotFound')
         if not finder.exists(root, p):
             add(['exists', 'false-for-real-path'], p)
+    # strings that are not the path of any entry must not address one: another root name, an index on a unique tag,
+    # a repeated tag without its index
+    for p, e, parent in ref:
+        if parent is None:
+            continue
+        elems = p.split('.')
+        last = elems[-1]
+        aliases = [('other-root', '.'.join(['zzz'] + elems[1:]))]
+        if last.endswith(']'):
+            aliases.append(('index-dropped', '.'.join(elems[:-1] + [re.sub(r'\[\d+\]$', '', last)])))
+        else:
+            siblings = [c for c in by_path[parent]['children']]
+            aliases.append(('index-added', '.'.join(elems[:-1] + [f'{last}[{[i for i, c in enumerate(siblings) if c is e][0]}]'])))
+        for kind, alias in aliases:
+            try:
+                found = finder.exists(root, alias)
+            except Exception as ex:  # noqa
+                add(['exists', 'raises', kind], f'exists({alias}) raised {type(ex).__name__}')
+                continue
+            if found:
+                add(['exists', 'alias-resolves', kind], f'exists({alias}) is true although no entry has that path (it resolves to the entry of {p})')
     # a path that extends past a leaf or names a missing tag must not exist
     for p, e, _ in ref:
         for miss in (f'{p}.zz', f'{p}.zz[0]'):
@@ -216,6 +263,10 @@ def check_tree(tree, desc):
             got_children = [c.full_path for c in nodes.children(p)]
             if got_children != children_ref[p]:
                 add(['nodes', 'children'], f'children({p}) = {got_children}, expected {children_ref[p]}')
+            got_expand = [c.full_path for c in nodes.expand(p)]
+            want_expand = ref_expand(ref, p)
+            if got_expand != want_expand:
+                add(['nodes', 'expand'], f'expand({p}) = {got_expand}, expected {want_expand}')
             if parent is not None:
                 got_sib = [c.full_path for c in nodes.siblings(p)]
                 if got_sib != children_ref[parent]:
